@@ -38,6 +38,8 @@ func main() {
 		runCodec(os.Args[2:])
 	case "cluster":
 		runCluster(os.Args[2:])
+	case "churn":
+		runChurn(os.Args[2:])
 	case "readyloop":
 		runReadyloop(os.Args[2:])
 	case "rendezvous":
